@@ -1369,6 +1369,43 @@ Definition c16_run9 (case obs : sx) : verdict :=
       end
   end.
 
+(* ---- one redis limiter of one process on its own: the vocabulary of theorem c16_redis_single_process --------------
+   A limiter without distribution whose limit key is never set, over a store nobody else writes: events and syncs in
+   any order (the syncs BETWEEN events: no event arrives inside a sync).  rrun uses the same rl_allow / sync_one as
+   c16_run9.                                                                                                      *)
+Inductive ritem := REv (o : op) | RSync (now : Z).
+Definition rl_fresh (c : cfg) (k : bytes) : rl :=
+  {| rl_c := c; rl_gs := []; rl_tkey := k; rl_lkey := []; rl_inc := lim0 c; rl_tot := lim0 c |}.
+Fixpoint rrun (r : rl) (cs : ctrs) (its : list ritem) : res (list bool) :=
+  match its with
+  | [] => Ok []
+  | REv o :: rest =>
+      ' (inc', tot', b) <- rl_allow (rl_c r) (rl_gs r) (rl_inc r) (rl_tot r) (o_now o) (o_ts o) (o_size o) (o_dv o) ;;
+      bs <- rrun {| rl_c := rl_c r; rl_gs := rl_gs r; rl_tkey := rl_tkey r; rl_lkey := rl_lkey r; rl_inc := inc'; rl_tot := tot' |}
+                 cs rest ;;
+      Ok (b :: bs)
+  | RSync now :: rest =>
+      ' (r', cs', _) <- sync_one false now [] cs r None ;;
+      rrun r' cs' rest
+  end.
+Fixpoint r_events (its : list ritem) : list op :=
+  match its with
+  | [] => []
+  | REv o :: r => o :: r_events r
+  | RSync _ :: r => r_events r
+  end.
+Definition ritem_clock (it : ritem) : Z := match it with REv o => o_now o | RSync n => n end.
+(* the clock never steps back, is past the first window after the epoch and below the real clock (FAR stands for the
+   time.Now() that sync passes as event time); sizes are not negative *)
+Fixpoint rtimed (c : cfg) (last : Z) (its : list ritem) : bool :=
+  match its with
+  | [] => true
+  | it :: r =>
+      let n := ritem_clock it in
+      (last <=? n) && (count c * interval c <=? n) && (n <=? FAR) &&
+      (match it with REv o => 0 <=? o_size o | RSync _ => true end) && rtimed c n r
+  end.
+
 (* which = 10  as which = 4, but the instances >= 1 are configured with time_field "" (Plugin.isAllowed takes
    time.Now(), the REAL clock, for every event whatever its time field says) and with limiter_key_field "lk" (a redis
    option that must not change anything under the in-memory backend).                                          *)
